@@ -125,7 +125,7 @@ func (f *Fn) LockOp(call *ast.CallExpr) (lock *types.Var, op string) {
 // LockAnalysis is the per-program result.
 type LockAnalysis struct {
 	Prog  *Prog
-	entry map[*Fn]Lockset           // entry lockset (caller holds)
+	entry map[*Fn]Lockset              // entry lockset (caller holds)
 	at    map[*Fn]map[ast.Node]Lockset // lockset before each top-level CFG node
 	exit  map[*Fn][]exitState
 	lits  map[*ast.FuncLit]*Fn
